@@ -92,12 +92,39 @@ def _class_assign(tree, cls, name):
     raise TranslatorError("anchor not found: class attribute %s.%s" % (cls, name))
 
 
+def _sections(tree, cls):
+    """every `@SectionLineParser.section_parser(*names)` decorator in class `cls`: (names, handler)"""
+    out = []
+    for node in ast.walk(tree):
+        if isinstance(node, ast.ClassDef) and node.name == cls:
+            for sub in node.body:
+                if not isinstance(sub, ast.FunctionDef):
+                    continue
+                for dec in sub.decorator_list:
+                    if isinstance(dec, ast.Call) and isinstance(dec.func, ast.Attribute) \
+                            and dec.func.attr == "section_parser":
+                        names = []
+                        for arg in dec.args:
+                            if not (isinstance(arg, ast.Constant) and isinstance(arg.value, str)):
+                                raise TranslatorError("section_parser argument is not a string literal")
+                            names.append(arg.value)
+                        if dec.keywords:
+                            raise TranslatorError("section_parser with keyword arguments is not modelled")
+                        out.append((names, sub.name))
+            if not out:
+                raise TranslatorError("no section_parser decorators found in %s" % cls)
+            return out
+    raise TranslatorError("anchor not found: class %s" % cls)
+
+
 def extract():
     tab = {}
     topo = src("topology.py")
     tab["patterns"] = _patterns(local_assign(find_func(topo, "match_dihedral_interaction_types"), "patterns"))
     tab["combFuncs"] = _comb_funcs(local_assign(find_func(topo, "gen_pairs", cls="Topology"), "comb_funcs"))
-    tab["atomIdxs"] = _atom_idxs(_class_assign(src("top_parser.py"), "TOPDirector", "atom_idxs"))
+    parser = src("top_parser.py")
+    tab["atomIdxs"] = _atom_idxs(_class_assign(parser, "TOPDirector", "atom_idxs"))
+    tab["sections"] = _sections(parser, "TOPDirector")
     return tab
 
 
@@ -136,6 +163,12 @@ def emit(tab):
         rows.append("(%s, [%s])" % (lstr(name), ", ".join(ents)))
     lines.append("  [" + ",\n   ".join(rows) + "]")
     lines.append("")
+    lines.append("/-- every `@SectionLineParser.section_parser(...)` of class TOPDirector: section path -> handler "
+                 "(the inherited `('macros',)` entry of vermouth's SectionLineParser is added by the model) -/")
+    lines.append("def sections : List (List String × String) :=")
+    lines.append("  [" + ",\n   ".join("([%s], %s)" % (", ".join(lstr(n) for n in names), lstr(func))
+                                        for names, func in tab["sections"]) + "]")
+    lines.append("")
     lines.append("end PolyplyVerif.Tables.Top")
     return "\n".join(lines) + "\n"
 
@@ -158,6 +191,15 @@ def validate_live(tab):
         live.append((name, ents))
     if live != [(n, list(r)) for n, r in tab["atomIdxs"]]:
         problems.append("TOPDirector.atom_idxs differs between ast and live class")
+    live_keys = set(top_parser.TOPDirector.METH_DICT.keys())
+    mine = set(tuple(names) for names, _ in tab["sections"]) | {("macros",)}
+    if live_keys != mine:
+        problems.append("TOPDirector.METH_DICT keys differ from the translated decorators: %s"
+                        % sorted(live_keys ^ mine))
+    for names, func in tab["sections"]:
+        entry = top_parser.TOPDirector.METH_DICT.get(tuple(names))
+        if entry is not None and entry[0].__name__ != func:
+            problems.append("section %s is handled by %s, translated %s" % (names, entry[0].__name__, func))
     # every translated pattern, applied to distinct atoms, must be found by the live function when it is
     # the only entry of the table
     atoms = ("a0", "a1", "a2", "a3", "a4", "a5", "a6", "a7")
